@@ -347,5 +347,15 @@ fn main() {
         }
     }
     run.notes.push("f32 rounding of the real sums is compared with tolerance 1e-4·Σ|terms| (both in the oracle and, through the printed quotient regret/Σ|terms|, in the correspondence)".into());
+    // truncate long samples (tree dumps) so that the evidence stays readable
+    for s in run.samples.iter_mut() {
+        if s.len() > 400 {
+            let cut = (0..=400).rev().find(|&i| s.is_char_boundary(i)).unwrap_or(0);
+            let tail = s[s.len().saturating_sub(60)..].to_string();
+            s.truncate(cut);
+            s.push_str(" … ");
+            s.push_str(&tail);
+        }
+    }
     run.finish();
 }
